@@ -14,6 +14,7 @@ import Homonim.Model.Layout
 import Homonim.Model.Stats
 import Homonim.Model.Bands
 import Homonim.Model.FS
+import Homonim.Model.Sched
 open Homonim
 
 def ints (ts : List String) : Option (List Int) := ts.mapM String.toInt?
@@ -230,6 +231,51 @@ def handleFs (toks : List String) : String :=
     s!"{outs} | " ++ " ".intercalate files
   | _, _ => "bad-args"
 
+def parseRes : Char → Option Res
+  | 'S' => some .S | 'R' => some .R | 'C' => some .C | 'P' => some .P | _ => none
+
+def parseLabel (t : String) : Option Label :=
+  if t = "take" then some .take else if t = "cmp" then some .compute else if t = "fin" then some .fin
+  else if t = "fail" then some (.fail none)
+  else
+    let cs := t.toList
+    match cs.reverse with
+    | r :: rest =>
+      let pre := String.ofList rest.reverse
+      match parseRes r with
+      | some r => if pre = "acq" then some (.acq r) else if pre = "io" then some (.io r) else if pre = "rel" then some (.rel r)
+                  else if pre = "fail" then some (.fail (some r)) else none
+      | none => none
+    | [] => none
+
+def showRes : Res → String | .S => "S" | .R => "R" | .C => "C" | .P => "P"
+
+/-- sched <param> <T> <njobs> F <j:pc>... E <t:label>... -/
+def handleSched (toks : List String) : String :=
+  match toks with
+  | pa :: t :: nj :: "F" :: rest =>
+    let fT := rest.takeWhile (· ≠ "E")
+    let eT := (rest.dropWhile (· ≠ "E")).drop 1
+    let faults : Option (List (Nat × Nat)) := fT.mapM fun x => match x.splitOn ":" with
+      | [a, b] => match a.toNat?, b.toNat? with | some a, some b => some (a, b) | _, _ => none
+      | _ => none
+    let events : Option (List (Nat × Label)) := eT.mapM fun x => match x.splitOn ":" with
+      | [a, b] => match a.toNat?, parseLabel b with | some a, some l => some (a, l) | _, _ => none
+      | _ => none
+    match pa.toNat?, t.toNat?, nj.toNat?, faults, events with
+    | some pa, some t, some nj, some fl, some ev =>
+      let param := pa ≠ 0
+      let fp : Faults := fun j pc => fl.contains (j, pc)
+      match replay param fp (initState (List.range nj) t) ev 0 with
+      | .error k => s!"reject {k}"
+      | .ok s =>
+        let oc := match s.outcome with | .ok => "ok" | .raised => "raised"
+        let ws := ",".intercalate (s.writes.map fun w => s!"{w.1}.{showRes w.2}")
+        let dn := ",".intercalate (s.done.map fun d => match d.2 with | none => s!"{d.1}:ok" | some pc => s!"{d.1}:f{pc}")
+        s!"accept outcome={oc} locks={if s.locksFree then "free" else "held"} final={if s.final then 1 else 0} writes={ws} done={dn}"
+    | _, _, _, _, _ => "bad-args"
+  | _ => "bad-args"
+
 def handle (toks : List String) : String :=
   match toks with
   | "blocks1" :: rest =>
@@ -305,6 +351,7 @@ def handle (toks : List String) : String :=
       s!"{if r.1.northUp then 1 else 0} {r.1.crs} {if r.2.northUp then 1 else 0} {r.2.crs}"
     | _ => "bad-args"
   | "fit" :: rest => handleFit rest
+  | "sched" :: rest => handleSched rest
   | "fshist" :: _ => handleFs toks
   | "match" :: rest => handleMatch rest
   | "cmpstats" :: rest => handleCmp rest
